@@ -341,11 +341,53 @@ def _copy_roots(f, l):
     return out
 
 
+def r08d(ctx, P):
+    rid = "R08.d"
+    ctx.rule(rid, "FLOW (writer side of the parent binding): the objects of one nested path share one index space per document, and "
+                  "collect_nested runs once per PARENT object. So the count it records for the path, and every object index it hands "
+                  "to collect_nested_object, must derive from the count already recorded for that path (a read of `nested_counts`): a "
+                  "count or index computed from the current array alone restarts at 0 for each parent, merging the children of "
+                  "different parents and binding them to the last one")
+    f = P.fn("searchlite_core::index::segment::collect_nested")
+    if not ctx.anchor(rid, f, "segment::collect_nested"):
+        return
+    ctx.saw(f)
+    sl = Slice(f, through_all_calls=True)
+    sl0 = Slice(f)
+
+    def reads_counts(operand):
+        for x in sl.sources(operand):
+            if x[0] == "call" and re.search(r"Map(<[^>]*>|::<[^>]*>)::(get|get_mut|entry|contains_key)$", callee_of(x[2])) and \
+                    x[2]["args"] and "nested_counts" in sl0.fields(x[2]["args"][0]):
+                return True
+        return False
+    n_ins, n_rec = 0, 0
+    for b, t in f.calls():
+        cal = callee_of(t)
+        if re.search(r"Map(<[^>]*>|::<[^>]*>)::insert$", cal) and "nested_counts" in sl0.fields(t["args"][0]):
+            n_ins += 1
+            ok = reads_counts(t["args"][2])
+            ctx.ob(rid, "%s:collect_nested:count-accumulates" % rid, ok,
+                   "the object count recorded at %s continues from the count already recorded for the path" % Site(f, b).loc() if ok else
+                   "the object count recorded at %s is computed from the current value alone: each parent object overwrites the count "
+                   "left by the previous one" % Site(f, b).loc(), Site(f, b).loc())
+        if cal == "searchlite_core::index::segment::collect_nested_object":
+            n_rec += 1
+            ok = reads_counts(t["args"][4])
+            ctx.ob(rid, "%s:collect_nested:object-index-offset" % rid, ok,
+                   "the object index passed at %s is offset by the objects already recorded for the path" % Site(f, b).loc() if ok else
+                   "the object index passed at %s restarts at 0 for every parent object: children of different parents share slots"
+                   % Site(f, b).loc(), Site(f, b).loc())
+    ctx.floor(rid + ".insert", n_ins, 1, "nested_counts.insert in collect_nested")
+    ctx.floor(rid + ".objects", n_rec, 2, "collect_nested_object calls in collect_nested (array and single-object arms)")
+
+
 def run(ctx, progs):
     P = progs.get("default")
     r08a(ctx, P)
     r08b(ctx, P)
     r08c(ctx, P)
+    r08d(ctx, P)
     ctx.assumptions += ["the object indices and parent links stored in the nested columns are those of the document (written by the segment build; "
                         "their agreement with the reader's type table is checked under C17 R17.c)",
                         "everything else in the statement (multi-valued semantics, nested-in-nested binding across several levels, And/Or/Not "
